@@ -46,7 +46,7 @@ def ensure_makefile():
             f.write(new)
 
 
-def make(targets, timeout=1500):
+def make(targets, timeout=600):
     """returns (ok, output)"""
     ensure_makefile()
     cmd = ['timeout', str(timeout), 'make', f'-j{NPROC}', '--no-print-directory'] + targets
